@@ -1781,21 +1781,40 @@ func fileShrink(c *core.Ctx, fc *fcase) *fcase {
 		}
 		t.Cols = cols
 	}
-	budget := 400
-	for size := cur.numRows() / 2; size >= 1 && budget > 0; {
-		removed := false
-		for from := 0; from+size <= cur.numRows() && budget > 0; {
-			t := cur
-			cut(&t, from, from+size)
-			budget--
-			if t.numRows() > 0 && fails(&t) {
-				cur, removed = t, true
-			} else {
-				from += size
+	budget := 600
+	for progress := true; progress && budget > 0; {
+		progress = false
+		// shorter row groups (the later row groups survive with fewer rows)
+		for _, f := range []func(t *fcase) bool{
+			func(t *fcase) bool { t.MaxRows /= 2; return t.MaxRows >= 1 },
+			func(t *fcase) bool { t.Flush /= 2; return t.Flush >= 1 },
+			func(t *fcase) bool { t.MaxRows--; return t.MaxRows >= 1 },
+			func(t *fcase) bool { t.Flush--; return t.Flush >= 1 },
+		} {
+			for budget > 0 {
+				t := cur
+				budget--
+				if !f(&t) || !fails(&t) {
+					break
+				}
+				cur, progress = t, true
 			}
 		}
-		if !removed || size > cur.numRows() {
-			size /= 2
+		for size := cur.numRows() / 2; size >= 1 && budget > 0; {
+			removed := false
+			for from := 0; from+size <= cur.numRows() && budget > 0; {
+				t := cur
+				cut(&t, from, from+size)
+				budget--
+				if t.numRows() > 0 && fails(&t) {
+					cur, removed, progress = t, true, true
+				} else {
+					from += size
+				}
+			}
+			if !removed || size > cur.numRows() {
+				size /= 2
+			}
 		}
 	}
 	if cur.Copy {
@@ -1983,7 +2002,7 @@ func historySweep(c *core.Ctx) {
 // ---------------------------------------------------------------- run
 
 func runC05(c *core.Ctx) {
-	c.Res.Rule = "(a) ColumnIndexer of every physical/logical type fed generated page lists (ordered, reversed, constant and random bounds from a per-type domain with extremes, -0, +-Inf, NaN payloads, long 0xFF prefixes; null pages at every position; size limits -1..21) plus every list of <= 4 pages over a 3-value domain for int32 / byte arrays and every byte string over {00,01,fe,ff} up to length 5 with limits 1..4; Type.Compare on all domain pairs; Bounds of in-memory pages, plain and dictionary indexed. (b) files with generated schemas (1-4 columns, required / optional / repeated, plain / dictionary, data page v1 / v2, tiny page buffers, every ColumnIndexSizeLimit 1..20, several row groups, with and without page statistics, sorting declared or not), re-written through WriteRowGroup with identical settings. Every page header, chunk statistic, column index entry, histogram and boundary order is checked directly against the values read back and against the model. A case is one indexer call sequence, one page, or one column chunk; non-trivial = at least 2 pages / values; distinct by the canonical text of the case."
+	c.Res.Rule = "(a) ColumnIndexer of every physical/logical type fed generated page lists (ordered, reversed, constant and random bounds from a per-type domain with extremes, -0, +-Inf, NaN payloads, long 0xFF prefixes; null pages at every position; size limits -1..21), on new indexers and on indexers that indexed 1-2 earlier lists and were Reset (random histories plus a sweep of every kind over histories shorter, equal and longer than the list), plus every list of <= 4 pages over a 3-value domain for int32 / byte arrays and every byte string over {00,01,fe,ff} up to length 5 with limits 1..4; Type.Compare on all domain pairs; Bounds of in-memory pages, plain and dictionary indexed: random pages, byte-position sweeps, pages above 1 MiB, and every ordered pair of every domain (NaNs and both zeros included; for the kinds whose order has ties also the pair spread over a longer page), each followed by Search of every value of the page in the one-page index made of the page's own bounds. (b) files with generated schemas (1-4 columns, required / optional / repeated, plain / dictionary, data page v1 / v2, tiny page buffers, every ColumnIndexSizeLimit 1..20, with and without page statistics, sorting declared or not; row groups cut by MaxRowsPerRowGroup and by Flush; writers new or reused through Writer.Reset after a complete or an abandoned file; a sweep gives every kind, plain and dictionary, each of these histories), re-written through WriteRowGroup with identical settings. Every page header, chunk statistic, column index entry, histogram and boundary order of every row group is checked directly against the values read back and against the model. A case is one indexer call sequence, one page, or one column chunk; non-trivial = at least 2 pages / values; distinct by the canonical text of the case."
 
 	var vmIdx, vmTrunc []string
 	addVmIdx := func(cs *idxCase) {
